@@ -356,7 +356,7 @@ def analyse_fixed_arrays(prog, util):
                     if rel == "tied":
                         if fits:
                             sites.append(WriteSite(arr, f, c, name, "ok", "bounded sources (<= %d bytes + NUL) fit %d, limit tied to the array" % (total, arr.size), worst[0]))
-                        elif arr.size_mac in OS_LIMIT_MACROS:
+                        elif arr.size_mac in OS_LIMIT_MACROS and arr.size >= 4096:
                             sites.append(WriteSite(arr, f, c, name, "os-limit-truncation",
                                                    "bounded sources of up to %d bytes cut at %s: names are only claimed up to the OS limits" % (total, arr.size_mac), worst[0]))
                         else:
@@ -374,7 +374,7 @@ def analyse_fixed_arrays(prog, util):
                     continue
                 # unbounded source
                 if rel == "tied":
-                    if arr.size_mac in OS_LIMIT_MACROS:
+                    if arr.size_mac in OS_LIMIT_MACROS and arr.size >= 4096:
                         sites.append(WriteSite(arr, f, c, name, "os-limit-truncation",
                                                "unbounded source %s cut at %s: names are only claimed up to the OS limits" % (worst[1], arr.size_mac), worst[0]))
                     else:
